@@ -953,3 +953,151 @@ func ruleW2(r *Run) {
 		}
 	}
 }
+
+// ruleAlwaysCancels: a closing method that cancels its object's context does so on every path.
+func ruleAlwaysCancels(r *Run, id string) {
+	r.Begin(id, "closing always cancels: every method named Close/CloseWithStatus/close* of a type that owns a context.CancelFunc field and calls it, calls (or defers) it on every path to every return — an early return on a close error otherwise leaves the object's context alive: pending requests are not released and the reconnect trigger never fires", 5)
+	p := r.P
+	n := 0
+	for _, fn := range p.Funcs {
+		if fn.Parent() != nil || fn.Signature.Recv() == nil {
+			continue
+		}
+		ln := strings.ToLower(fn.Name())
+		if !strings.HasPrefix(ln, "close") {
+			continue
+		}
+		rn := namedOf(fn.Signature.Recv().Type())
+		if rn == nil {
+			continue
+		}
+		isCancelCall := func(ins ssa.Instruction) bool {
+			cc := instrCall(ins)
+			if cc == nil || cc.StaticCallee() != nil || cc.IsInvoke() {
+				return false
+			}
+			if !typeIs(cc.Value.Type(), "context", "CancelFunc") {
+				return false
+			}
+			for _, l := range p.Leaves(cc.Value, provOpts{}) {
+				if strings.HasPrefix(l, "field:") && strings.Contains(l, "."+rn.Obj().Name()+".") {
+					return true
+				}
+			}
+			return false
+		}
+		has := false
+		allInstrs(fn, func(ins ssa.Instruction) {
+			if isCancelCall(ins) {
+				has = true
+			}
+		})
+		if !has {
+			continue
+		}
+		n++
+		name := fnName(fn)
+		doneHeads := doneBranchHeads(fn)
+		w := reachesFromEntryWithout(fn, func(ins ssa.Instruction) bool {
+			if !isReturn(ins) || ins.Block() == fn.Recover {
+				return false
+			}
+			for _, h := range doneHeads {
+				if h == ins.Block() || h.Dominates(ins.Block()) {
+					return false // the context is already cancelled on this branch
+				}
+			}
+			return true
+		}, isCancelCall)
+		r.Check(name+" always cancels", w == nil, posOf(p, w), name, "a return is reachable without the cancel call")
+	}
+	if n == 0 {
+		r.Undecided("closing methods", "none found")
+	}
+}
+
+// ruleCtxParamUsed: blocking wire requests made by a function that has a context parameter are bounded by it.
+func ruleCtxParamUsed(r *Run, id string) {
+	r.Begin(id, "requests are bounded by the caller's context: in package iscp, a function that has a context.Context parameter passes a context derived from that parameter to every blocking wire-level request (Send…Request, SendUpstreamMetadata) it makes; passing the stream's or connection's own long-lived context instead makes the call ignore its caller's deadline", 4)
+	p := r.P
+	n := 0
+	for _, fn := range p.Funcs {
+		if fnPkgPath(fn) != modPath+"/iscp" {
+			continue
+		}
+		var own []*ssa.Parameter
+		for _, prm := range fn.Params {
+			if isContextType(prm.Type()) {
+				own = append(own, prm)
+			}
+		}
+		if len(own) == 0 {
+			continue
+		}
+		name := fnName(fn)
+		allInstrs(fn, func(ins ssa.Instruction) {
+			nm := callName(ins)
+			if !(strings.HasPrefix(nm, "/wire.ClientConn.Send") && (strings.HasSuffix(nm, "Request") || strings.HasSuffix(nm, "Metadata"))) {
+				return
+			}
+			n++
+			arg := instrCall(ins).Args[1]
+			ok := false
+			for _, rt := range ctxRoots(arg) {
+				for _, prm := range own {
+					if canonVal(rt) == ssa.Value(prm) {
+						ok = true
+					}
+				}
+			}
+			r.Check(name+" "+nm[strings.LastIndexByte(nm, '.')+1:]+" ctx", ok, posOf(p, ins), name, "context argument: "+pathOf(arg).String()+"; the function's own context parameter must bound the request")
+		})
+	}
+	if n == 0 {
+		r.Undecided("requests in ctx functions", "none found")
+	}
+}
+
+// ruleDrainBounds: the upstream drain is bounded by the stream's context, the caller's context and the close timeout.
+func ruleDrainBounds(r *Run, id string) {
+	r.Begin(id, "the drain wait is bounded three ways: the cond-wait loop of Upstream.Close's drain polls a context derived from the stream's own context (so that closing the connection ends it), the caller's context, and a timeout built from Upstream.closeTimeout", 3)
+	p := r.P
+	fn := r.method("/iscp", "Upstream", "waitToSendAllDataPointsAndReceiveAllAck")
+	if fn == nil {
+		return
+	}
+	name := fnName(fn)
+	stream, caller, timeout := false, false, false
+	allInstrs(fn, func(ins ssa.Instruction) {
+		sel, ok := ins.(*ssa.Select)
+		if !ok || sel.Blocking {
+			return
+		}
+		for _, st := range sel.States {
+			if st.Dir != types.RecvOnly {
+				continue
+			}
+			cx := doneCtx(st.Chan)
+			if cx == nil {
+				continue
+			}
+			for _, rt := range ctxRoots(cx) {
+				l := p.Leaves(rt, provOpts{StopAtCalls: true})
+				if hasLeaf(l, "field:/iscp.Upstream.ctx") {
+					stream = true
+				}
+				if prm, isP := canonVal(rt).(*ssa.Parameter); isP && isContextType(prm.Type()) {
+					caller = true
+				}
+				if c, isC := rt.(*ssa.Call); isC && isCallNamed(c, "context.WithTimeout") {
+					if hasLeaf(p.Leaves(c.Call.Args[1], provOpts{}), "field:/iscp.Upstream.closeTimeout") {
+						timeout = true
+					}
+				}
+			}
+		}
+	})
+	r.Check(name+" bounded by the stream context", stream, p.pos(fn.Pos()), name, "a polled context must derive from Upstream.ctx")
+	r.Check(name+" bounded by the caller context", caller, p.pos(fn.Pos()), name, "a polled context must derive from the ctx parameter")
+	r.Check(name+" bounded by the close timeout", timeout, p.pos(fn.Pos()), name, "a polled context must come from context.WithTimeout(…, Upstream.closeTimeout)")
+}
